@@ -53,6 +53,8 @@ def check(run):
         from . import C08 as _C08
         b8 = run.borrow("C08", only=r"stores-unconditional|restores-unconditional|accumulating|visits-every-element", why="the blanket scriptlet exception must survive serialization")
         run.guard("C18.via.C08.3.legacy-bijection", cfg, lambda: _C08.rule_legacy(b8, F, cfg))
+        b162 = run.borrow("C16", only=r"\|(inject|uninject)$", why="a scriptlet exception removes exactly the identical injection: the exception bin is keyed by the script text alone")
+        run.guard("C18.via.C16.2.bin-pairing", cfg, lambda: _C16.rule_pairing(b162, F, cfg))
 
 
 # ------------------------------------------------------------------ tiny expression evaluator
